@@ -266,7 +266,6 @@ def analyse(name, rows, index=None, want_estimator=False):
             res = an.analyze()
         except ValueError as e:
             return "ValueError", str(e), [], {}
-        # pyLife wraps the DataFrame validation error into an AttributeError of the accessor in some pandas versions
         extra = {}
         if want_estimator and hasattr(an, "_pearl_chain_estimator"):
             est = an.pearl_chain_estimator()
@@ -383,7 +382,7 @@ assumptions(PROP, [
 ])
 
 
-def _expected(base, kind, c, k_for_nd=None):
+def _expected(base, kind, c):
     want = dict(base)
     if kind == "load":
         want["SD"] = base["SD"] * c
@@ -891,7 +890,13 @@ def _ml_run(name, kind):
             raise Violation("%s: library likelihood %r at its estimate %r, reference %r" % (name, own, ra, la), bucket="%s:likelihood_value" % name)
         # ---- the ML estimate is not worse than the Elementary estimate it starts from --------------------------------
         el = analyse("Elementary", full, index)[1]
-        ll_start, ll_a = ref_loglike(rows, el), ref_loglike(rows, ra)
+        start = dict(el)
+        if el["k_1"] < 0 and not inf_only:
+            # scatter can give the Elementary regression the wrong sign; MaxLikeFull only represents k_1 >= 0 (it folds every
+            # parameter with abs()), so the point it really starts from is the Elementary estimate with |k_1|
+            ctx.label("negative_elementary_slope")
+            start["k_1"] = abs(el["k_1"])
+        ll_start, ll_a = ref_loglike(rows, start), ref_loglike(rows, ra)
         if math.isfinite(ll_start):
             ctx.label("start_finite")
             # MaxLikeInf moves (SD, ND) along the fitted line, which leaves the finite part unchanged up to rounding
